@@ -28,7 +28,7 @@ type StepObs struct {
 	Retry     int
 	Neg       string
 	Loc       []string // "sid:rid" or "sid:rid*" (rewritten by import policy)
-	ASNRef    bool     // local AS of session 0 is a contributing ASN of the VRF
+	ASNRef    string   // per session: its local AS is a contributing ASN of the VRF
 	CIDRef    string   // per session: cluster id contributing?
 	Clients4  uint64
 	Clients6  uint64
@@ -61,7 +61,7 @@ func (o StepObs) Token() string {
 		fr = "r"
 	}
 	return fmt.Sprintf("%s/%c/%s/%c/%s/%d/%s/u%d/i%s|L%s/a%sk%s/c%d.%d/T%s", fr, o.State, b01(o.Attached), o.Conn, outs, o.Retry, o.Neg, o.Upd,
-		idsString(o.AdjIn), loc, b01(o.ASNRef), o.CIDRef, o.Clients4, o.Clients6, o.All)
+		idsString(o.AdjIn), loc, o.ASNRef, o.CIDRef, o.Clients4, o.Clients6, o.All)
 }
 
 var stateLetter = map[string]byte{"idle": 'I', "connect": 'C', "active": 'A', "openSent": 'S', "openConfirm": 'F', "established": 'E', "cease": 'Z'}
@@ -102,8 +102,9 @@ func peerConfig(i int, c SessCfg, v *vrf.VRF) server.PeerConfig {
 		PeerRoleStrictMode:         c.Strict,
 		VRF:                        v,
 	}
-	fam := func(recv, send bool) *server.AddressFamilyConfig {
+	fam := func(recv, send, nx bool) *server.AddressFamilyConfig {
 		return &server.AddressFamilyConfig{
+			NextHopExtended:   nx,
 			ImportFilterChain: importChain(c.Imp),
 			ExportFilterChain: filter.NewAcceptAllFilterChain(),
 			AddPathRecv:       recv,
@@ -111,10 +112,10 @@ func peerConfig(i int, c SessCfg, v *vrf.VRF) server.PeerConfig {
 		}
 	}
 	if c.V4 {
-		pc.IPv4 = fam(c.APR4, c.APS4)
+		pc.IPv4 = fam(c.APR4, c.APS4, c.NX4)
 	}
 	if c.V6 {
-		pc.IPv6 = fam(c.APR6, c.APS6)
+		pc.IPv6 = fam(c.APR6, c.APS6, false)
 	}
 	return pc
 }
@@ -128,6 +129,9 @@ func msgBytes(m Msg, s *liveSess) []byte {
 	case 'U':
 		asn4, ap4, _ := s.fsm.DecodeOptions()
 		return UpdateBytes(m.Ann, m.Wd, s.cfg.LAS != s.cfg.PAS, s.cfg.PAS, asn4, ap4)
+	case 'P':
+		asn4, ap4, _ := s.fsm.DecodeOptions()
+		return PoisonBytes(m.RID, m.ByASN, m.Val, s.cfg.LAS != s.cfg.PAS, s.cfg.PAS, asn4, ap4)
 	case 'N':
 		return NotificationBytes(m.Code, m.Sub)
 	case 'H':
@@ -254,9 +258,9 @@ func RunCase(c Case) (obs []StepObs, slow bool) {
 			}
 		}
 		sort.Strings(o.Loc)
-		o.ASNRef = v.IsContributingASN(c.Sess[0].LAS)
 		for _, x := range ss {
-			o.CIDRef += b01(x.cfg.RR && v.IsContributingClusterID(clusterOf(x.cfg)))
+			o.ASNRef += b01(v.IsContributingASN(x.cfg.LAS))
+			o.CIDRef += b01(v.IsContributingClusterID(clusterOf(x.cfg)))
 			o.All += string(stateLetter[x.fsm.StateName()]) + b01(x.fsm.RibsInitialized())
 		}
 		o.Clients4 = rib4.ClientCount()
